@@ -1,16 +1,8 @@
 #!/bin/bash
-# try_refactor.sh <dir-with-refactor_k.diff> — apply each behaviour-preserving patch to /repo on
-# its own, evaluate EVERY property (bin/mscheck -all), undo. Any line printed is a false alarm.
-D=$1
+# try_refactor.sh <dir-with-refactor_k.diff>... — apply each behaviour-preserving patch to the source
+# IN MEMORY (bin/mscheck -all -patch; /repo is not touched), evaluate EVERY property. Any "ALL C…"
+# line printed is a false alarm. Patches are evaluated 6 at a time.
 export GOFLAGS=-mod=mod GOPROXY=off GOSUMDB=off GOTOOLCHAIN=local; unset GOWORK
-cd /repo || exit 2
-for f in $D/refactor_*.diff; do
-  echo "--- $(basename $f)"
-  if git apply --check "$f" 2>/dev/null; then git apply "$f"
-  elif patch -p1 --dry-run -F3 -s < "$f" >/dev/null 2>&1; then patch -p1 -F3 -s < "$f"; echo "(applied with fuzz)"
-  else echo "does not apply"; continue; fi
-  go build ./... 2>&1 | head -3
-  /verif/bin/mscheck -all -verif /verif 2>&1 | grep -E "^ALL" | cut -c1-${W:-330}
-  git checkout -q -- . && git clean -fdq -e '*.orig' && find . -name '*.orig' -delete
-done
-git status --short | head -3
+for D in "$@"; do
+  ls $D/refactor_*.diff 2>/dev/null
+done | xargs -P 6 -I{} sh -c 'o=$(/verif/bin/mscheck -all -patch {} -verif /verif 2>&1 | grep -E "^ALL" | cut -c1-${W:-330}); printf -- "--- %s\n%s\n" "$(basename $(dirname {}))/$(basename {})" "$o"'
